@@ -207,10 +207,22 @@ func ChanW(args []string) {
 		if cs == nil {
 			cs = &chanState{conn: &captureConn{}}
 			// half of the channels start at the default size and are resized, as negotiation does
-			if o.Msize%2 == 0 {
+			switch o.Msize % 4 {
+			case 0, 2:
 				cs.ch = p9p.NewChannel(cs.conn, o.Msize)
-			} else {
+			case 1:
 				cs.ch = p9p.NewChannel(cs.conn, p9p.DefaultMSize)
+				cs.ch.SetMSize(o.Msize)
+			default:
+				// ... and some have already carried traffic at another size before they are resized (renegotiation):
+				// the outcome of a write depends on the msize in force, not on what went through the channel before
+				first := p9p.DefaultMSize
+				if o.Msize > 4096 {
+					first = 64
+				}
+				cs.ch = p9p.NewChannel(cs.conn, first)
+				cs.ch.WriteFcall(context.Background(), &p9p.Fcall{Type: p9p.Twrite, Tag: 9, Message: p9p.MessageTwrite{Fid: 1, Data: make([]byte, 30)}})
+				cs.ch.WriteFcall(context.Background(), &p9p.Fcall{Type: p9p.Tread, Tag: 9, Message: p9p.MessageTread{Fid: 1, Count: 1 << 20}})
 				cs.ch.SetMSize(o.Msize)
 			}
 			if len(chans) > 64 {
